@@ -33,11 +33,14 @@ def scaleRow (c : LinComb) (row : List Val) : M (List Val) := mapM' (fun v => mu
 /-- `0 + row` (`Array.__radd__` = `__add__` with a base value): `[sv+0 for sv in self.arr]` -/
 def addZeroRow (row : List Val) : M (List Val) := mapM' (fun v => addV v (.int 0)) row
 
-/-- `a + b` (`Array.__add__`): `[sv+ov for (sv,ov) in zip(self.arr, other.arr)]` -/
-def addRows (a b : List Val) : M (List Val) := zipWithM' addV a b
+/-- `a + b` (`Array.__add__`): `[sv+ov for (sv,ov) in zip(self.arr, other.arr)]`; operands of different lengths are
+refused (`ValueError("arrays not of the same length: ...")`), never zipped to the shorter one -/
+def addRows (a b : List Val) : M (List Val) :=
+  if a.length = b.length then zipWithM' addV a b else raise .value
 
-/-- `a - b` (`Array.__sub__`) -/
-def subRows (a b : List Val) : M (List Val) := zipWithM' subV a b
+/-- `a - b` (`Array.__sub__`); operands of different lengths are refused (`ValueError`) -/
+def subRows (a b : List Val) : M (List Val) :=
+  if a.length = b.length then zipWithM' subV a b else raise .value
 
 /-- `lin_comb(ixs, rows)` = `sum([c*row for (c,row) in zip(ixs, rows)])` for rows that are `Array`s: all products first
 (row by row), then `0 + p₀ + p₁ + …`.  (`sum([])` is the int `0`; `arrayIxs` has raised before for an empty array.) -/
